@@ -129,3 +129,34 @@ func VerifSetFile(name string, content []byte, length int, mode int) {
 func verifSetFile(name string, content []byte, length int, mode int) {
 	VerifSetFile(name, content, length, mode)
 }
+
+// VerifAnd/VerifOr: non-short-circuit boolean connectives (keep reference
+// models branch-free for the symbolic executor).
+func VerifAnd(a, b bool) bool { return a && b }
+func VerifOr(a, b bool) bool  { return a || b }
+func verifAnd(a, b bool) bool { return a && b }
+func verifOr(a, b bool) bool  { return a || b }
+
+// vhPadFile extends the ghost/real file to length bytes with zeros.
+func VerifPadFile(name string, length int) {
+	f, err := os.OpenFile(name, os.O_WRONLY, 0644)
+	if err != nil {
+		return
+	}
+	f.Truncate(int64(length))
+	f.Close()
+}
+func vhPadFile(name string, length int) { VerifPadFile(name, length) }
+
+// VerifIte: branch-free selection (an ite term for the executor).
+func VerifIte(c bool, a, b int) int {
+	if c {
+		return a
+	}
+	return b
+}
+func verifIte(c bool, a, b int) int { return VerifIte(c, a, b) }
+
+// VerifShard: a case split explored by parallel executor instances.
+func VerifShard(n int) int { return VerifChoice(n) }
+func verifShard(n int) int { return VerifChoice(n) }
